@@ -2,7 +2,7 @@
 from ._famprop import make
 
 run, replay = make(
-    "C04", "ref", ["V"],
+    "C04", "ref_both", ["V"],
     rule="Complete grids over float/int vectors of 2-4 components and float3x3/float4x4: every swizzle read mask of length 1-4 (any "
          "order, repetition; both letter sets; whole expression, operand of +, swizzle of swizzle); every non-repeating write mask with "
          "scalar/vector right-hand side on locals, parameters, globals, array elements (constant and dynamic index), struct fields and "
